@@ -577,6 +577,9 @@ pub fn run_stream(args: &Args) -> (u64, u64) {
             }
         }
     }
+    if exp == "wrath" {
+        rc4_coincidence(&mut c, &mut rng);
+    }
     // session keys whose DERIVED cipher key (HMAC-SHA1 under the protocol's direction constants) starts with a notable
     // byte pair - 03 FF (the classic weak RC4 key form), 00 00, FF FF, 00 01: found by search (input selection only;
     // the specification derives the key itself and judges every byte)
@@ -1387,6 +1390,48 @@ pub fn run_hdrio(args: &Args) -> (u64, u64) {
     c.tr.finish()
 }
 
+
+/// clone_from between Wrath halves of two DIFFERENT sessions whose fresh client encrypters agree in (i, j, S[i], S[j]) -
+/// a pair found by a birthday search over 20 000 random keys (input selection; state read from Debug): the destination
+/// becomes the source all the same
+fn rc4_coincidence(c: &mut C, rng: &mut StdRng) {
+    {
+        c.reset("clone-from-rc4-coincidence");
+        let user = wow_srp::normalized_string::NormalizedString::new("COINCIDE").unwrap();
+        let mut seen: std::collections::HashMap<(u64, u8, u8), [u8; 40]> = std::collections::HashMap::new();
+        let mut hit: Option<([u8; 40], [u8; 40])> = None;
+        for _ in 0..20_000 {
+            let k = rnd40(rng);
+            let (_, cc) = wr::ProofSeed::new().into_client_header_crypto(&user, k, 1);
+            let (e, _d) = cc.split();
+            let st = En::WC(e).state();
+            let (Some(j), Some(sarr)) = (st["j"].as_u64(), st["S"].as_array()) else { break };
+            let i = st["i"].as_u64().unwrap_or(0) as usize;
+            let (si, sj) = (sarr[i % 256].as_u64().unwrap_or(0) as u8, sarr[j as usize % 256].as_u64().unwrap_or(0) as u8);
+            if let Some(prev) = seen.insert((j, si, sj), k) {
+                if prev != k { hit = Some((prev, k)); break; }
+            }
+        }
+        clear_hooks();
+        if let Some((ka, kb)) = hit {
+            if let (Some((mut a, _)), Some((mut b2, mut svb))) = (pair(c, "wrath", "COINCIDE", ka, None, 1), pair(c, "wrath", "COINCIDE", kb, None, 1)) {
+                c.split(&mut a);
+                c.split(&mut b2);
+                c.clone_from_conn(&mut a, &b2);
+                // a is now a copy of b2: what it encrypts is understood by b2's server
+                if let Some(h) = c.enc_client_hdr(&mut a, 8, 0x1DC, "half") {
+                    c.sent = Some((8, 0x1DC));
+                    c.read_hdr(&mut svb, "client", &[Step::Data(h)], "combined");
+                    c.sent = None;
+                }
+                let w = [1u8, 2, 3, 4, 5];
+                c.call(&mut a, "dec", &w, "half");
+                c.call(&mut b2, "enc", &w, "half");
+            }
+        }
+    }
+}
+
 /// C12: TLC-generated interleavings of {enc, dec, split, clone, unsplit} replayed sequentially,
 /// two-thread schedules replayed on real threads, unsplit with equal / different keys.
 pub fn run_halves(args: &Args) -> (u64, u64) {
@@ -1605,8 +1650,8 @@ pub fn run_halves(args: &Args) -> (u64, u64) {
         c.call(&mut a, "enc", &w, "combined");
         c.call(&mut a, "dec", &w[..1 + i % 3], "combined");
         c.call(&mut b2, "dec", &w, "combined");
-        let kind = [ErrorKind::WouldBlock, ErrorKind::TimedOut, ErrorKind::BrokenPipe, ErrorKind::Other][i % 4];
-        let script = if i % 5 == 4 { vec![Step::Accept(1), Step::Accept(0)] } else { vec![Step::Accept(i % 4), Step::Err(kind)] };
+        let kind = [ErrorKind::WouldBlock, ErrorKind::TimedOut, ErrorKind::BrokenPipe, ErrorKind::Other][(i / 3) % 4];
+        let script = if i % 7 == 6 { vec![Step::Accept(1), Step::Accept(0)] } else if i % 2 == 0 { vec![Step::Accept(1 + i % 3), Step::Err(kind)] } else { vec![Step::Err(kind)] };
         c.write_hdr(&mut a, "client", 0x10 + i as u32, 0x1DC, &script, "combined");
         c.call(&mut a, "dec", &w, "combined");
         c.write_hdr(&mut b2, "server", 0x20 + i as u32, 0x1EE, &script, "combined");
@@ -1640,44 +1685,7 @@ pub fn run_halves(args: &Args) -> (u64, u64) {
             c.call(&mut b2, "dec", &w, "combined");
         }
     }
-    // clone_from between Wrath halves of two DIFFERENT sessions whose fresh client encrypters agree in (i, j, S[i], S[j]) -
-    // a pair found by a birthday search over 20 000 random keys (input selection; state read from Debug): the destination
-    // becomes the source all the same
-    {
-        c.reset("clone-from-rc4-coincidence");
-        let user = wow_srp::normalized_string::NormalizedString::new("COINCIDE").unwrap();
-        let mut seen: std::collections::HashMap<(u64, u8, u8), [u8; 40]> = std::collections::HashMap::new();
-        let mut hit: Option<([u8; 40], [u8; 40])> = None;
-        for _ in 0..20_000 {
-            let k = rnd40(&mut rng);
-            let (_, cc) = wr::ProofSeed::new().into_client_header_crypto(&user, k, 1);
-            let (e, _d) = cc.split();
-            let st = En::WC(e).state();
-            let (Some(j), Some(sarr)) = (st["j"].as_u64(), st["S"].as_array()) else { break };
-            let i = st["i"].as_u64().unwrap_or(0) as usize;
-            let (si, sj) = (sarr[i % 256].as_u64().unwrap_or(0) as u8, sarr[j as usize % 256].as_u64().unwrap_or(0) as u8);
-            if let Some(prev) = seen.insert((j, si, sj), k) {
-                if prev != k { hit = Some((prev, k)); break; }
-            }
-        }
-        clear_hooks();
-        if let Some((ka, kb)) = hit {
-            if let (Some((mut a, _)), Some((mut b2, mut svb))) = (pair(&mut c, "wrath", "COINCIDE", ka, None, 1), pair(&mut c, "wrath", "COINCIDE", kb, None, 1)) {
-                c.split(&mut a);
-                c.split(&mut b2);
-                c.clone_from_conn(&mut a, &b2);
-                // a is now a copy of b2: what it encrypts is understood by b2's server
-                if let Some(h) = c.enc_client_hdr(&mut a, 8, 0x1DC, "half") {
-                    c.sent = Some((8, 0x1DC));
-                    c.read_hdr(&mut svb, "client", &[Step::Data(h)], "combined");
-                    c.sent = None;
-                }
-                let w = [1u8, 2, 3, 4, 5];
-                c.call(&mut a, "dec", &w, "half");
-                c.call(&mut b2, "enc", &w, "half");
-            }
-        }
-    }
+    rc4_coincidence(&mut c, &mut rng);
     // two-thread schedules: each thread owns one half; TLC's schedule is followed in lock-step
     fn assert_send<T: Send>() {}
     assert_send::<En>();
